@@ -150,6 +150,8 @@ class XorEncodedFile(io.RawIOBase):
             nonce = self.fh.read(4)
         except OSError:
             nonce = b"\x00\x00\x00\x00"
+        # peeking at the previous four bytes must not move the cursor (short read at/after EOF)
+        self.fh.seek(pos)
         if pos < self.nonce_offset + 12:
             # Exclude "encoded filesize" as nonce:
             # | nonce | encoded filesize | encoded MZ | encoded .. |
